@@ -1,1 +1,494 @@
-fn main() {}
+//! C02 — the class writer emits a well-formed file denoting exactly the given class.
+//! Observed: duke::write_class(T) for T = duke::read_class(b) (and T after dukebox's remap by a seeded injective renamer).
+//! Oracle: the harness' strict parser/validator must accept the bytes and parse(bytes) must equal project(T) fact by
+//! fact after instruction alignment (align.rs); writer event log checked offline (events.rs); refusals accepted only
+//! with a strict reason (reference layout, layout.rs); second pass read_class(written) again.
+mod align;
+mod events;
+mod layout;
+mod raw;
+mod rename;
+mod scen;
+
+use cf::{diff, emit, features, gen, model::*, opcodes as op, parse, project};
+use common::{par::*, report::{finish, Meta}, *};
+use duke::tree::class::ClassFile;
+use std::io::Cursor;
+
+fn template(msg: &str) -> String {
+    let mut out = String::new(); let mut in_q = false; let mut in_num = false;
+    for c in msg.chars() {
+        if c == '"' { in_q = !in_q; if in_q { out.push_str("\"..\""); } continue; }
+        if in_q { continue; }
+        if c.is_ascii_digit() { if !in_num { out.push('#'); in_num = true; } continue; }
+        in_num = false; out.push(c);
+    }
+    out.chars().take(140).collect()
+}
+
+fn hex_capped(b: &[u8]) -> String { if b.len() <= 150_000 { hex(b) } else { format!("<{} bytes; regenerate with --replay (seed, workload, case)>", b.len()) } }
+
+/// what one judged write looked like (for fingerprints / samples)
+#[derive(Default)]
+struct Outcome { wrote: bool, refused: Option<String>, attempts_max: usize, widened: usize, tramps: usize, code_max: usize, pool_count: u16 }
+
+struct Subject<'a> {
+    what: &'a str,
+    /// source class file the tree was read from
+    src: &'a [u8],
+    src_pool_count: u16,
+    renamed: Option<u64>,
+    info: &'a Value,
+}
+impl Subject<'_> {
+    fn detail(&self, extra: Value) -> Value {
+        let mut d = json!({"source": self.what, "input_hex": hex_capped(self.src), "renamed_with_seed": self.renamed.map(|s| s as i64), "scenario": self.info});
+        if let (Some(o), Some(e)) = (d.as_object_mut(), extra.as_object()) { for (k, v) in e { o.insert(k.clone(), v.clone()); } }
+        d
+    }
+}
+
+/// Compares expected and observed class; position facts through the instruction alignment.
+/// Returns (per method with code: expected index -> observed index map, trampolines), None entries when not aligned.
+fn compare(rep: &mut Report, prefix: &str, report_frames: bool, exp: &Class, obs: &Class, sub: &Subject) -> Vec<Option<align::Aligned>> {
+    let mut e = exp.clone();
+    let mut o = obs.clone();
+    let mut aligned = vec![];
+    if e.methods.len() == o.methods.len() {
+        for (me, mo) in e.methods.iter_mut().zip(o.methods.iter_mut()) {
+            match (&mut me.code, &mut mo.code) {
+                (Some(ce), Some(co)) => {
+                    // known defect class: the StackMapTable is never written. Reported (once per case), then taken out of the
+                    // comparison so that every other fact of the method is still compared.
+                    if ce.frames.is_some() && co.frames.is_none() {
+                        if report_frames { rep.violation(format!("{prefix} fact .methods[].code.frames:missing"), sub.detail(json!({"method": me.name.show(), "expected_frames": ce.frames.as_ref().map(|f| f.len())}))); }
+                        ce.frames = None;
+                    }
+                    let a = align::align(ce, co);
+                    *co = a.code.clone();
+                    aligned.push(Some(a));
+                }
+                (Some(_), None) | (None, Some(_)) => aligned.push(None),
+                (None, None) => {}
+            }
+        }
+    }
+    project::normalise(&mut e); project::normalise(&mut o);
+    if e == o { rep.count(if prefix.contains("reread") { "compare.reread.equal" } else { "compare.equal" }); }
+    else {
+        for d in diff::diff(&e, &o, 12) {
+            rep.violation(format!("{prefix} fact {}", d.signature()), sub.detail(json!({"at": d.at, "expected": d.expected, "observed": d.observed})));
+        }
+    }
+    aligned
+}
+
+fn code_methods(c: &Class) -> Vec<&Code> { c.methods.iter().filter_map(|m| m.code.as_ref()).collect() }
+
+/// The core of the monitor: write `tree`, validate, compare, check the event log, read again.
+fn judge_tree(rep: &mut Report, tree: &ClassFile, sub: &Subject) -> Outcome {
+    let mut out = Outcome::default();
+    let mut exp = project::project(tree);
+    project::normalise(&mut exp);
+    let exp_codes = code_methods(&exp);
+    let jumps: Vec<usize> = exp_codes.iter().map(|c| layout::count_jumps(&c.insns)).collect();
+    rep.eval();
+    rep.count(if sub.renamed.is_some() { "writes.renamed" } else { "writes.plain" });
+
+    // ---- the observed execution
+    duke::verif::start_recording();
+    let res = guard(|| { let mut buf = Vec::new(); duke::write_class(&mut buf, tree).map(|_| buf).map_err(|e| format!("{e:#}")) });
+    let evs = duke::verif::take_events();
+
+    let bytes = match res {
+        Err(p) => {
+            rep.violation(format!("C02 writer panic {}", p.site()), sub.detail(json!({"panic": p.message, "at": format!("{}:{}", p.file, p.line)})));
+            out.refused = Some("panic".into());
+            return out;
+        }
+        Ok(Err(e)) => {
+            // a refusal needs a strict reason
+            let code_msg = e.contains("code size exceeded u16::MAX") || e.contains("must be greater than zero and less than 65536");
+            let pool_msg = e.contains("pool count overflowed");
+            let lmax = exp_codes.iter().map(|c| layout::ref_layout(&c.insns, &|_| true, true).len()).max().unwrap_or(0);
+            let lmin = exp_codes.iter().map(|c| layout::ref_layout(&c.insns, &|_| false, true).len()).max().unwrap_or(0);
+            // switch padding makes the widening fixpoint non-unique (a pad can shrink when code in front of it grows), so a
+            // method with switches gets 8 bytes of slack per switch before a refusal is called unjustified
+            let slack = exp_codes.iter().map(|c| 8 * c.insns.iter().filter(|i| matches!(i, Insn::TableSwitch { .. } | Insn::LookupSwitch { .. })).count() as u32).max().unwrap_or(0);
+            if code_msg && lmax > 65535 {
+                rep.count(if lmin > 65535 { "refusal.code_too_large.strict" } else { "refusal.code_too_large.needs_2_byte_ldc_index" });
+                out.refused = Some("code too large".into());
+            } else if code_msg && lmax + slack > 65535 {
+                rep.count("refusal.code_too_large.within_switch_padding_slack(not judged)");
+                out.refused = Some("code too large".into());
+            } else if pool_msg && sub.renamed.is_some() && sub.src_pool_count >= 32768 {
+                rep.count("refusal.pool_too_large.after_renaming(not judged)");
+                out.refused = Some("pool too large".into());
+            } else {
+                rep.violation(format!("C02 writer refuses class: {}", template(e.rsplit(": ").next().unwrap_or(&e))), sub.detail(json!({"error": e, "reference_code_length_min": lmin, "reference_code_length_max": lmax, "source_pool_count": sub.src_pool_count})));
+                out.refused = Some("unjustified".into());
+            }
+            let log = events::check(&evs, &jumps, None, None);
+            for (sig, d) in log.problems { rep.violation(sig, sub.detail(json!({"log": d, "writer_error": e}))); }
+            for a in &log.attempts { out.attempts_max = out.attempts_max.max(*a); }
+            return out;
+        }
+        Ok(Ok(b)) => b,
+    };
+    out.wrote = true;
+
+    // ---- strict structural validation by the independent parser
+    let parsed = match parse::parse_with_spans(&bytes) {
+        Ok(p) => p,
+        Err(e) => {
+            rep.violation(format!("C02 output rejected by strict validator: {}", template(&e)), sub.detail(json!({"validator": e, "written_hex": hex_capped(&bytes)})));
+            return out;
+        }
+    };
+    out.pool_count = parsed.pool_count;
+    rep.max("max.pool_count_written", parsed.pool_count as u64);
+    let mut obs = parsed.class.clone();
+    project::normalise(&mut obs);
+
+    // ---- facts
+    let aligned = compare(rep, "C02", true, &exp, &obs, sub);
+
+    // ---- event log
+    let raws = raw::raw_codes(&bytes, &parsed.spans);
+    let emitted: Vec<usize> = raws.iter().map(|r| r.len).collect();
+    let log = events::check(&evs, &jumps, Some(&emitted), Some(parsed.pool_count));
+    for (sig, d) in log.problems { rep.violation(sig, sub.detail(json!({"log": d}))); }
+    for a in &log.attempts {
+        rep.count(match *a { 1 => "attempts.1", 2 => "attempts.2", 3 => "attempts.3", 4..=9 => "attempts.4-9", 10..=29 => "attempts.10-29", _ => "attempts.30+" });
+        rep.max("max.attempts", *a as u64);
+        out.attempts_max = out.attempts_max.max(*a);
+    }
+    if let Some((count, entries, two)) = log.pool { rep.count("pool.events"); if two > 0 { rep.count("pool.with_two_slot_entries"); } let _ = (count, entries); }
+
+    // ---- evidence from the bytes actually written
+    let obs_codes = code_methods(&parsed.class);
+    if aligned.len() == exp_codes.len() && raws.len() == exp_codes.len() && obs_codes.len() == exp_codes.len() {
+        for (mi, a) in aligned.iter().enumerate() {
+            let (Some(a), ec, oc, rc) = (a, exp_codes[mi], obs_codes[mi], &raws[mi]) else { continue };
+            rep.max("max.code_length_written", rc.len as u64);
+            out.code_max = out.code_max.max(rc.len);
+            if !a.complete || rc.ops.len() != oc.insns.len() { continue; }
+            let mut first_widened: Option<usize> = None;
+            for (i, ins) in ec.insns.iter().enumerate() {
+                let j = a.map[i] as usize;
+                match ins {
+                    Insn::Branch(o, t) if (*t as usize) < a.map.len() => {
+                        let is_tr = a.tramp.binary_search(&(i as u32)).is_ok();
+                        let long = is_tr || matches!(rc.ops[j], 200 | 201);
+                        // offset the 3-byte form would have needed: a forward jump's own extra length is not part of it
+                        let mut logical = rc.off(a.map[*t as usize] as usize) as i64 - rc.off(j) as i64;
+                        if logical > 0 && long { logical -= if is_tr { 5 } else { 2 }; }
+                        if long { out.widened += 1; if first_widened.is_none() { first_widened = Some(i); } }
+                        let class = if op::is_cond_branch(*o) { "if" } else if *o == op::GOTO { "goto" } else { "jsr" };
+                        if is_tr { out.tramps += 1; rep.count("written.trampolines"); rep.seen("trampoline_opcodes", op::name(*o)); }
+                        else if rc.ops[j] == 200 { rep.count("written.goto_w"); } else if rc.ops[j] == 201 { rep.count("written.jsr_w"); }
+                        if (32760..=32776).contains(&logical.abs()) { rep.seen("boundary_offsets", &format!("{class} {} {logical:+}", if long { "long form" } else { "16-bit" })); }
+                        if long && logical.abs() < 32760 { rep.count("written.long_form_although_near"); }
+                    }
+                    Insn::TableSwitch { .. } | Insn::LookupSwitch { .. } => {
+                        if let Some(p) = rc.switch_pad(j) {
+                            rep.seen("switch_padding", &format!("pad={p}"));
+                            if first_widened.is_some() { rep.seen("switch_padding_after_widened_jump", &format!("pad={p}")); }
+                        }
+                    }
+                    Insn::Ldc(_) => {
+                        if let Some((o, idx)) = rc.ldc_index(&bytes, j) {
+                            rep.count(match o { 18 => "written.ldc", 19 => "written.ldc_w", _ => "written.ldc2_w" });
+                            if (250..=260).contains(&idx) { rep.seen("ldc_index_boundary", &format!("{}@{idx}", op::name(o))); }
+                        }
+                    }
+                    _ => {}
+                }
+            }
+            if let Some(fw) = first_widened {
+                let fw = fw as u32;
+                rep.count("methods.with_long_form_jump");
+                for e in &ec.exceptions { if e.start > fw || e.handler > fw { rep.count("anchors.exception_after_widened"); } if e.start <= fw && e.end > fw { rep.count("anchors.exception_spanning_widened"); } }
+                if let Some(l) = &ec.line_numbers { for (p, _) in l { rep.count(if *p > fw { "anchors.line_after_widened" } else { "anchors.line_before_widened" }); } }
+                if let Some(l) = &ec.lvt { for v in l { if v.start <= fw && v.end > fw { rep.count("anchors.local_spanning_widened"); } else if v.start > fw { rep.count("anchors.local_after_widened"); } } }
+                // switch arms pointing behind a widened jump
+                for ins in &ec.insns { if let Insn::TableSwitch { targets, .. } = ins { if targets.iter().any(|t| *t > fw) { rep.count("anchors.switch_arm_after_widened"); } } if let Insn::LookupSwitch { pairs, .. } = ins { if pairs.iter().any(|(_, t)| *t > fw) { rep.count("anchors.switch_arm_after_widened"); } } }
+            }
+            // evidence only: written length vs the least fixpoint for the ldc widths the writer used
+            let wide_ldc: Vec<bool> = (0..ec.insns.len()).map(|i| rc.ops[a.map[i] as usize] == 19).collect();
+            let reference = layout::ref_layout(&ec.insns, &|i| wide_ldc[i], true).len();
+            rep.count(if reference as usize == rc.len { "reference_layout.same_length" } else { "reference_layout.other_length" });
+            if reference as usize != rc.len && std::env::var_os("C02_DEBUG").is_some() {
+                let lay = layout::ref_layout(&ec.insns, &|i| wide_ldc[i], true);
+                let mut diffs = vec![];
+                for (i, ins) in ec.insns.iter().enumerate() { if let Insn::Branch(o, t) = ins { let j = a.map[i] as usize; let long = a.tramp.binary_search(&(i as u32)).is_ok() || matches!(rc.ops[j], 200 | 201); if long != lay.widened[i] { diffs.push(format!("insn {i} {} -> {t}: writer long={long} at {} (target {}), reference widened={} at {} (target {})", op::name(*o), rc.off(j), rc.off(a.map[*t as usize] as usize), lay.widened[i], lay.offs[i], lay.offs[*t as usize])); } } }
+                eprintln!("DEBUG other_length {} case {:?}: written {} reference {} :: {:?}", sub.what, rep.cur, rc.len, reference, diffs);
+            }
+        }
+    }
+
+    // ---- second pass: the reader must read the written class to the same facts
+    match guard(|| duke::read_class(&mut Cursor::new(&bytes)).map_err(|e| format!("{e:#}"))) {
+        Err(p) => rep.violation(format!("C02 reread: reader panics on the written class {}", p.site()), sub.detail(json!({"panic": p.message, "written_hex": hex_capped(&bytes)}))),
+        Ok(Err(e)) => rep.violation(format!("C02 reread: reader rejects the written class: {}", template(e.rsplit(": ").next().unwrap_or(&e))), sub.detail(json!({"error": e, "written_hex": hex_capped(&bytes)}))),
+        Ok(Ok(t2)) => {
+            let mut again = project::project(&t2); project::normalise(&mut again);
+            compare(rep, "C02 reread", false, &exp, &again, sub);
+        }
+    }
+    out
+}
+
+/// reads `src` with the real reader, judges the tree, and the tree after renaming
+fn judge_source(rep: &mut Report, what: &str, src: &[u8], info: &Value, rename_seed: Option<u64>, expect_model: Option<&Class>) -> Vec<Outcome> {
+    let mut outs = vec![];
+    let src_pool_count = if src.len() > 10 { u16::from_be_bytes([src[8], src[9]]) } else { 0 };
+    let tree = match guard(|| duke::read_class(&mut Cursor::new(src)).map_err(|e| format!("{e:#}"))) {
+        Ok(Ok(t)) => t,
+        // not a tree the reader can produce: outside C02's quantifier (C01 judges the reader)
+        Ok(Err(e)) => { rep.count("reader.rejected_source(not judged)"); rep.note(format!("reader rejected a source class: {}", template(&e))); return outs; }
+        Err(p) => { rep.count("reader.panicked_on_source(not judged)"); rep.note(format!("reader panicked on a source class: {}", p.site())); return outs; }
+    };
+    if let Some(m) = expect_model {
+        let mut got = project::project(&tree); project::normalise(&mut got);
+        let mut want = m.clone(); project::normalise(&mut want);
+        if got != want { rep.count("scenario.reader_changed_the_model"); } else { rep.count("scenario.tree_equals_model"); }
+    }
+    let sub = Subject { what, src, src_pool_count, renamed: None, info };
+    outs.push(judge_tree(rep, &tree, &sub));
+    if let Some(seed) = rename_seed {
+        let renamer = rename::Renamer { seed };
+        match guard(|| dukebox::remap::remap_class(&renamer, tree.clone()).map_err(|e| format!("{e:#}"))) {
+            Ok(Ok(t2)) => { let sub = Subject { what, src, src_pool_count, renamed: Some(seed), info }; outs.push(judge_tree(rep, &t2, &sub)); }
+            Ok(Err(e)) => { rep.count("remap.refused(not judged)"); rep.note(format!("remap refused: {}", template(&e))); }
+            Err(p) => { rep.count("remap.panicked(not judged)"); rep.note(format!("remap panicked: {}", p.site())); }
+        }
+    }
+    outs
+}
+
+// ------------------------------------------------------------------------------------------------ scenario plan
+#[derive(Clone, Debug)]
+enum Spec { S1(u64, u64), S2a(usize), S2b, S3(u64, u64), S4(u32, bool), S5(u64) }
+
+fn plan(tier: Tier) -> Vec<Spec> {
+    let mut v = vec![];
+    let ks = [2usize, 3, 4, 6, 9, 14, 22, 35, 50, 5, 2, 50];
+    let block = |v: &mut Vec<Spec>, round: u64| {
+        for c in 0..36 { v.push(Spec::S1(c, round)); }
+        for (i, k) in ks.iter().enumerate() { if round == 0 || (i as u64 + round) % 3 == 0 { v.push(Spec::S2a(*k)); } }
+        for i in 0..20u64 { let (var, sub) = if i < 4 { (0, i) } else if i < 9 { (1, i - 4) } else { (2, i - 9) }; v.push(Spec::S3(var, sub + round * 5)); }
+        for i in 0..16u64 { v.push(Spec::S5(i + round * 16)); }
+        if round % 8 == 0 { v.push(Spec::S4(65535, false)); v.push(Spec::S4(65535, true)); v.push(Spec::S4(65534, false)); }
+        for _ in 0..24 { v.push(Spec::S2b); }
+    };
+    block(&mut v, 0);
+    match tier {
+        Tier::Quick => { for c in 0..36 { v.push(Spec::S1(c, 1)); } }
+        Tier::Thorough => { for round in 1..24 { block(&mut v, round); } }
+    }
+    v
+}
+
+fn build_scenario(spec: &Spec, rng: &mut Rng) -> Result<(scen::Scn, Vec<u8>), String> {
+    let lay = emit::Layout::canonical();
+    match spec {
+        Spec::S4(want, last_long) => {
+            // adjust the number of constants until the source pool has exactly `want` slots
+            let count = |n: usize, extra: usize| -> Result<(scen::Scn, Vec<u8>, i64), String> {
+                let s = scen::s4(n, extra, *last_long);
+                let b = emit::emit_front(&s.class, &lay, &s.front).map_err(|e| format!("s4 emit: {e}"))?;
+                let pc = u16::from_be_bytes([b[8], b[9]]) as i64;
+                Ok((s, b, pc))
+            };
+            let mut n = 50_000usize;
+            let (_, _, pc) = count(n, 0)?;
+            if pc > *want as i64 { n -= (pc - *want as i64) as usize; }
+            let (s, b, pc) = count(n, 0)?;
+            if pc == *want as i64 { return Ok((s, b)); }
+            if pc < *want as i64 { let (s, b, pc2) = count(n, (*want as i64 - pc) as usize)?; if pc2 == *want as i64 { return Ok((s, b)); } }
+            Err("s4: pool count did not converge".into())
+        }
+        _ => {
+            let s = match spec { Spec::S1(c, r) => scen::s1(*c, *r, rng)?, Spec::S2a(k) => scen::s2a(*k, rng)?, Spec::S2b => scen::s2b(rng)?, Spec::S3(v, s) => scen::s3(*v, *s, rng)?, Spec::S5(i) => scen::s5(*i, rng)?, Spec::S4(..) => unreachable!() };
+            let b = emit::emit_front(&s.class, &lay, &s.front).map_err(|e| format!("{} emit: {e}", s.kind))?;
+            Ok((s, b))
+        }
+    }
+}
+
+// ------------------------------------------------------------------------------------------------ self-checks
+fn self_checks() {
+    let die = |m: &str| -> ! { eprintln!("HARNESS-ERROR {m}"); std::process::exit(3) };
+    // alignment: a trampoline folds back only where the expectation is the matching conditional branch
+    let exp = Code { insns: vec![Insn::Branch(153, 3), Insn::Op(0), Insn::Op(0), Insn::Op(177)], line_numbers: Some(vec![(1, 7), (3, 8)]), ..Default::default() };
+    let obs = Code { insns: vec![Insn::Branch(154, 2), Insn::Branch(167, 4), Insn::Op(0), Insn::Op(0), Insn::Op(177)], line_numbers: Some(vec![(2, 7), (4, 8)]), ..Default::default() };
+    let a = align::align(&exp, &obs);
+    if !a.complete || a.code != exp || a.tramp != vec![0] { die("alignment canary: trampoline not folded"); }
+    let mut bad = obs.clone(); bad.insns[0] = Insn::Branch(154, 3);
+    if align::align(&exp, &bad).code == exp { die("alignment canary: broken trampoline (wrong skip target) accepted"); }
+    let mut bad = obs.clone(); bad.insns[1] = Insn::Branch(167, 3);
+    if align::align(&exp, &bad).code == exp { die("alignment canary: trampoline to another instruction accepted"); }
+    let mut bad = obs.clone(); bad.line_numbers = Some(vec![(1, 7), (4, 8)]);
+    if align::align(&exp, &bad).code == exp { die("alignment canary: line number pointing into a trampoline accepted"); }
+    let mut exp2 = exp.clone(); exp2.insns[0] = Insn::Branch(167, 3);
+    if align::align(&exp2, &obs).complete { die("alignment canary: trampoline folded where the expectation is not a conditional branch"); }
+    let mut exp3 = exp.clone(); exp3.insns[0] = Insn::Branch(155, 3);
+    if align::align(&exp3, &obs).complete { die("alignment canary: trampoline of another condition folded"); }
+    // event-log checker
+    use duke::verif::Event as E;
+    let ok = [E::CodeAttempt { code_len: 10, wide: 1, retry: true }, E::CodeAttempt { code_len: 15, wide: 1, retry: false }, E::Pool { count: 4, entries: 2, two_slot_entries: 1 }];
+    if !events::check(&ok, &[1], Some(&[15]), Some(4)).problems.is_empty() { die("event canary: a correct log was flagged"); }
+    let bad = [E::CodeAttempt { code_len: 10, wide: 1, retry: true }, E::CodeAttempt { code_len: 10, wide: 1, retry: true }, E::CodeAttempt { code_len: 15, wide: 1, retry: false }, E::Pool { count: 4, entries: 2, two_slot_entries: 1 }];
+    let r = events::check(&bad, &[1], Some(&[15]), Some(4));
+    if !r.problems.iter().any(|p| p.0.contains("strictly increase")) || !r.problems.iter().any(|p| p.0.contains("jumps + 1")) { die("event canary: non-increasing |wide| / too many attempts not flagged"); }
+    if events::check(&ok, &[1], Some(&[14]), Some(4)).problems.is_empty() { die("event canary: wrong final length not flagged"); }
+    if events::check(&[ok[0].clone(), ok[1].clone(), E::Pool { count: 5, entries: 2, two_slot_entries: 1 }], &[1], Some(&[15]), Some(5)).problems.is_empty() { die("event canary: wrong pool accounting not flagged"); }
+    // whole comparison on a real write: a deliberately wrong expectation must be flagged
+    let mut rng = Rng::new(11);
+    let (s, b) = build_scenario(&Spec::S1(0, 0), &mut rng).unwrap_or_else(|e| die(&format!("scenario canary: {e}")));
+    let tree = duke::read_class(&mut Cursor::new(&b)).unwrap_or_else(|e| die(&format!("scenario canary: reader: {e:#}")));
+    let mut w = Vec::new(); if let Err(e) = duke::write_class(&mut w, &tree) { die(&format!("scenario canary: writer: {e:#}")); }
+    let obs = parse::parse(&w).unwrap_or_else(|e| die(&format!("scenario canary: validator: {e}")));
+    let mut wrong = s.class.clone();
+    if let Some(c) = wrong.methods[0].code.as_mut() { if let Some(Insn::Branch(_, t)) = c.insns.iter_mut().find(|i| matches!(i, Insn::Branch(..))) { *t += 1; } }
+    let mut probe = Report::new();
+    let info = json!(null);
+    let sub = Subject { what: "canary", src: &b, src_pool_count: 0, renamed: None, info: &info };
+    compare(&mut probe, "C02", true, &wrong, &obs, &sub);
+    if !probe.violations.keys().any(|k| k.contains(".insns")) { die("comparison canary: a branch target moved by one instruction was not flagged"); }
+}
+
+fn main() {
+    filter_stderr();
+    let mut ctx = Ctx::from_args("C02", 40, 540);
+    let replay = load_replay(&mut ctx);
+    let mut rep = Report::new();
+    self_checks();
+
+    // ---- workload 1: large-method scenarios (first: the coverage obligations depend on them)
+    let specs = plan(ctx.tier);
+    run_cases(&ctx, &replay, &mut rep, "scenarios", specs.len() as u64, |rng, rep, i| {
+        let spec = &specs[i as usize];
+        let (s, src) = match build_scenario(spec, rng) { Ok(x) => x, Err(e) => { rep.count("scenario.generation_failed"); rep.note(format!("scenario generation failed: {}", template(&e))); return; } };
+        rep.count(&format!("scenario.{}", s.kind));
+        // harness self-checks: the independent parser reads the source back to the model; source code length == reference layout
+        match parse::parse_with_spans(&src) {
+            Ok(p) if p.class == s.class => {
+                if matches!(spec, Spec::S1(..) | Spec::S2a(_) | Spec::S2b | Spec::S3(..)) {
+                    // the source keeps X at the pool front (1-byte ldc index) in every scenario whose big method loads it
+                    let want = s.class.methods[0].code.as_ref().map(|c| layout::ref_layout(&c.insns, &|_| false, true).len() as usize);
+                    let got = p.spans.code_arrays.first().map(|c| c.1);
+                    if want == got { rep.count("scenario.source_layout_equals_reference"); } else { eprintln!("HARNESS-ERROR reference layout ({want:?}) and emitter ({got:?}) disagree on the source code length (case {i})"); std::process::exit(3); }
+                }
+            }
+            Ok(p) => { let d = diff::diff(&s.class, &p.class, 3); eprintln!("HARNESS-ERROR parse(emit(scenario)) != scenario at {d:?} (case {i})"); std::process::exit(3); }
+            Err(e) => { eprintln!("HARNESS-ERROR parse(emit(scenario)) failed: {e} (case {i}, {:?})", spec); std::process::exit(3); }
+        }
+        let what = format!("scenario {:?}", spec);
+        let outs = judge_source(rep, &what, &src, &s.info, Some(rng.next_u64()), Some(&s.class));
+        for (k, o) in outs.iter().enumerate() {
+            let shape = format!("{}|{}|{}|{}|{}|{:?}|{}", s.kind, k, o.attempts_max, o.widened.min(60), o.tramps.min(60), o.refused, o.code_max / 512);
+            rep.nontrivial(common::rng::fnv_str(&shape));
+            if s.info.get("must_write").and_then(|v| v.as_bool()) == Some(true) && k == 0 && o.wrote { rep.count("scenario.at_limit_written"); }
+        }
+        if let Some(o) = outs.first() {
+            if o.attempts_max >= 2 { rep.sample(|| json!({"kind": "large-method scenario", "parameters": s.info, "source_bytes": src.len(), "writer_attempts": o.attempts_max, "jumps_in_long_form": o.widened, "trampolines": o.tramps, "written_code_length": o.code_max, "refused": o.refused})); }
+        }
+    });
+
+    // ---- workload 2: generated classes (same generator as C01) x layouts, plain and renamed
+    let cfg = gen::GenCfg::default();
+    let big_cfg = gen::GenCfg { max_insns: 400, max_methods: 3, ..gen::GenCfg::default() };
+    let n = ctx.tier.pick(2_500, 160_000);
+    run_cases(&ctx, &replay, &mut rep, "generated", n, |rng, rep, i| {
+        let m = if i % 16 == 15 { gen::gen_class(rng, &big_cfg) } else { gen::gen_class(rng, &cfg) };
+        let feats = features::features(&m);
+        let mut any = false;
+        for li in 0..2u64 {
+            let layout = if li == 0 { emit::Layout::canonical() } else { let mut l = emit::Layout::random(rng.next_u64()); if rng.chance(1, 3) { l.pool_filler = 240 + rng.below(30); } l };
+            let lname = if li == 0 { "canonical".to_string() } else { format!("random seed={} filler={}", layout.seed, layout.pool_filler) };
+            let bytes = match emit::emit(&m, &layout) { Ok(b) => b, Err(e) => { rep.count("emit.skipped"); rep.note(format!("emit skipped: {}", template(&e))); continue; } };
+            match parse::parse(&bytes) {
+                Ok(p) if p == m => {}
+                other => { eprintln!("HARNESS-ERROR parse(emit(M)) != M (case {i}, layout {lname}): {:?}", other.err()); std::process::exit(3); }
+            }
+            any = true;
+            let info = json!({"layout": lname});
+            let rename = if (i + li) % 2 == 0 { Some(rng.next_u64()) } else { None };
+            judge_source(rep, "generated", &bytes, &info, rename, None);
+            if li == 0 && bytes.len() < 500 { rep.sample(|| json!({"kind": "generated class", "bytes_hex": hex(&bytes), "features": feats.iter().take(30).collect::<Vec<_>>() })); }
+        }
+        if any {
+            for f in &feats { let (set, member) = f.split_once('.').unwrap_or(("misc", f)); rep.seen(set, member); }
+            if m.methods.iter().any(|x| x.code.is_some()) || !m.fields.is_empty() { rep.nontrivial(features::fingerprint(&feats)); }
+        }
+    });
+
+    // ---- workload 3: javac corpus, as compiled and re-emitted
+    let corpus = cf::corpus::load(&ctx.verif_dir);
+    run_cases(&ctx, &replay, &mut rep, "corpus", corpus.len() as u64, |rng, rep, i| {
+        let (name, bytes) = &corpus[i as usize];
+        let m = match parse::parse(bytes) { Ok(m) => m, Err(e) => { eprintln!("HARNESS-ERROR independent parser rejects corpus class {name}: {e}"); std::process::exit(3); } };
+        rep.count("corpus.classes");
+        let feats = features::features(&m);
+        for f in &feats { let (set, member) = f.split_once('.').unwrap_or(("misc", f)); rep.seen(&format!("corpus.{set}"), member); }
+        rep.nontrivial(features::fingerprint(&feats) ^ 0xc0);
+        let info = json!({"corpus": name});
+        judge_source(rep, &format!("corpus {name}"), bytes, &info, Some(rng.next_u64()), None);
+        let l = emit::Layout::random(rng.next_u64());
+        if let Ok(b2) = emit::emit(&m, &l) { rep.count("corpus.relayouts"); judge_source(rep, &format!("corpus {name} re-emitted (random seed={})", l.seed), &b2, &info, None, None); }
+    });
+
+    let mut meta = Meta::new("exploration", "three workloads: (1) large-method scenarios built at exact byte distances with the reference layout (single jumps of every kind forward/backward at offsets +-32765..+-32770, chains of 2..50 dependent jumps, random clusters of jumps near the limit with switches and table anchors around them, methods of exactly 65533..65535 bytes and methods stretched past 65535, pools of exactly 65534/65535 slots, ldc around index 255/256); far conditional branches are made reader-reachable by pool pressure (source keeps the constant at the pool front, >= 256 entries are used by earlier members); (2) the C01 generator's classes under canonical and random layouts; (3) the javac corpus as compiled and re-emitted. Every tree is judged as read and after dukebox's remap with a seeded injective renamer. A case is non-trivial if the class has a field or a method with code; distinct = distinct feature-set fingerprint (generated/corpus) or distinct (scenario kind, writer attempts, number of long-form jumps, trampolines, outcome, code size bucket)")
+        .assume("the independent parser/emitter (harness/cf) implement JVMS chapter 4 correctly (cross-checked against each other on every case and against javac output); the reference layout implements the JVMS instruction lengths (cross-checked against the emitter on every scenario)")
+        .assume("a refusal 'code too large' is accepted when the method does not fit 65535 bytes if every one-slot ldc needs a 2-byte index (the writer's pool numbering is its own business); a refusal 'pool too large' is never accepted for a tree as read (its constants fit the source pool) and not judged after renaming when the source pool had >= 32768 slots")
+        .assume("well-formed = accepted by the strict structural parser; verifier-level constraints are out of scope; stack-map frames are known not to be written (known finding) and are taken out of the comparison after being reported");
+    meta.extra.insert("attempts_histogram".into(), json!({
+        "1": rep.get("attempts.1"), "2": rep.get("attempts.2"), "3": rep.get("attempts.3"), "4-9": rep.get("attempts.4-9"), "10-29": rep.get("attempts.10-29"), "30+": rep.get("attempts.30+"), "max": rep.get("max.attempts") }));
+    if replay.is_none() {
+        let has = |set: &str, m: &str| rep.sets.get(set).is_some_and(|s| s.contains(m));
+        meta.oblige("writer needed more than one attempt in some method", rep.get("attempts.2") + rep.get("attempts.3") + rep.get("attempts.4-9") + rep.get("attempts.10-29") + rep.get("attempts.30+") > 0);
+        meta.oblige("writer needed at least 3 attempts in some method, and at least 30 in one", rep.get("attempts.3") + rep.get("attempts.4-9") > 0 && rep.get("attempts.30+") > 0);
+        meta.oblige("trampolines written for at least 8 different conditional opcodes", rep.seen_n("trampoline_opcodes") >= 8);
+        meta.oblige("goto_w and jsr_w written", rep.get("written.goto_w") > 0 && rep.get("written.jsr_w") > 0);
+        for b in ["if 16-bit +32767", "if 16-bit -32768", "if long form +32768", "if long form -32769", "goto 16-bit +32767", "goto 16-bit -32768", "goto long form +32768", "goto long form -32769", "jsr long form +32768", "jsr long form -32769"] {
+            meta.oblige(format!("boundary offset written exactly: {b}"), has("boundary_offsets", b));
+        }
+        meta.oblige("switches at all 4 alignments", rep.seen_n("switch_padding") == 4);
+        meta.oblige("switches at all 4 alignments behind a jump written in long form", rep.seen_n("switch_padding_after_widened_jump") == 4);
+        meta.oblige("ldc at pool index 255 and ldc_w at pool index 256 written", has("ldc_index_boundary", "ldc@255") && has("ldc_index_boundary", "ldc_w@256"));
+        meta.oblige("a method of exactly 65535 bytes written", rep.get("max.code_length_written") == 65535);
+        meta.oblige("a constant pool with constant_pool_count 65535 written", rep.get("max.pool_count_written") == 65535);
+        meta.oblige("a justified 'code too large' refusal observed", rep.get("refusal.code_too_large.strict") + rep.get("refusal.code_too_large.needs_2_byte_ldc_index") > 0);
+        meta.oblige("exception, line-number and local-variable anchors behind / across a jump written in long form", rep.get("anchors.exception_after_widened") > 0 && rep.get("anchors.exception_spanning_widened") > 0 && rep.get("anchors.line_after_widened") > 0 && rep.get("anchors.local_spanning_widened") > 0 && rep.get("anchors.switch_arm_after_widened") > 0);
+        meta.oblige("renamed trees judged", rep.get("writes.renamed") >= 100);
+        meta.oblige("corpus classes judged", rep.get("corpus.classes") >= 100);
+        meta.oblige("at least 150 opcode families in the generated classes, locals in all three index classes", rep.seen_n("insn") >= 150 && rep.seen_n("local") >= 3);
+        meta.oblige("at most 10% of the scenarios could not be generated or read", (rep.get("scenario.generation_failed") + rep.get("scenario.reader_changed_the_model")) * 10 <= specs.len() as u64 && rep.get("scenario.tree_equals_model") > 0);
+    }
+    std::process::exit(finish(&ctx, rep, meta));
+}
+
+/// dukebox's remap prints a `todo:` line per signature it does not remap; the monitor re-executes itself with stderr
+/// piped and drops exactly those lines (everything else, in particular HARNESS-ERROR lines, is forwarded unchanged).
+fn filter_stderr() {
+    use std::io::{BufRead, BufReader, Write};
+    if std::env::var_os("C02_CHILD").is_some() || std::env::var_os("C02_NO_FILTER").is_some() { return; }
+    let Ok(exe) = std::env::current_exe() else { return };
+    let args: Vec<String> = std::env::args().skip(1).collect();
+    let Ok(mut child) = std::process::Command::new(exe).args(&args).env("C02_CHILD", "1").stderr(std::process::Stdio::piped()).spawn() else { return };
+    if let Some(err) = child.stderr.take() {
+        let mut r = BufReader::new(err);
+        let mut line = Vec::new();
+        let stderr = std::io::stderr();
+        loop {
+            line.clear();
+            match r.read_until(b'\n', &mut line) { Ok(0) | Err(_) => break, Ok(_) => {} }
+            if line.starts_with(b"todo: impl remap ") || line.starts_with(b"remap jar entry name: unknown") { continue; }
+            let _ = stderr.lock().write_all(&line);
+        }
+    }
+    let code = child.wait().ok().and_then(|s| s.code()).unwrap_or(3);
+    std::process::exit(code);
+}
